@@ -14,7 +14,8 @@ EXTRA = {  # checks besides the seed's own property that are worth running again
     "C11-A": ["C10"], "C13-A": ["C10"], "C14-A": ["C02"], "C15-A": ["C04"], "C18-A": ["C07"], "C18-B": ["C07"],
     "C19-A": ["C09"], "C04-E": ["C14"], "C04-F": ["C15"], "C07-G": ["C14"], "C18-E": ["C07"], "C01-F": ["C02"],
     "C07-C": ["C18"], "C07-D": ["C18"], "C01-D": ["C02"], "C12-F": ["C11"], "C15-E": ["C04"], "C06-E": ["C05"],
-    "C06-F": ["C05"],
+    "C06-F": ["C05"], "C04-G": ["C14"], "C04-H": ["C14"], "C08-E": ["C18"], "C19-H": ["C09"], "C05-G": ["C06"],
+    "C18-G": ["C07"],
 }
 
 
